@@ -6,6 +6,19 @@ import PsdVerif.Lemmas.TreeRefuse
 
 namespace PsdVerif.TreeSt
 
+theorem inv_empty (limit : Nat) : Inv (State.empty limit) where
+  live := by intro c x hx; cases hx
+  contOnly := by intro c h; exact absurd rfl h
+  layerOnly := by intro c x hx; cases hx
+  parentOk := by intro c x hx; cases hx
+  psdOk := by intro c x d hx; cases hx
+  nodup := by intro c; exact List.nodup_nil
+  acyclic := ⟨fun _ => 0, by intro c x hx; cases hx⟩
+
+/-- on a well-formed store "listed nowhere" only has to be checked for the live containers -/
+theorem detached_of_bounded {s : State} {x : Id} (i : Inv s) (h : ∀ c, c < s.next → x ∉ s.children c) :
+    Detached s x := fun c hc => h c (i.live c x hc).1 hc
+
 theorem inv_step (s : State) (op : Op) (i : Inv s) (hg : Guard s op)
     (hne : (step .current s op).2 ≠ .error .recursionError) : Inv (step .current s op).1 := by
   have hself : Cfg.current.itemSelfCheck = true := rfl
